@@ -111,6 +111,14 @@ def materialise(elems, how, na="none"):
         return pd.Series([np.nan if (v is None) else v for v in vals], index=list(range(len(vals)))[::-1], dtype=object)
     if how == "ndarray":
         return np.array(vals, dtype=object)
+    if how == "series_categorical":
+        # a column of a filtered sub-table: categorical dtype whose category list also holds values that no longer occur
+        def isna(v):
+            return v is None or v is pd.NA or (isinstance(v, (float, np.floating)) and v != v)
+        present = list(dict.fromkeys(v for v in vals if not isna(v)))
+        unused = ["zz-unused", "CASSL-unused"] if all(isinstance(v, str) for v in present) else [-99, 424242]
+        dt = pd.CategoricalDtype(categories=present + unused)
+        return pd.Series([None if isna(v) else v for v in vals], index=[f"c{i}" for i in range(len(vals))], dtype=dt)
     raise ValueError(how)
 
 
@@ -119,8 +127,8 @@ def check_overlap(case, rec):
     ha, hb = case["as_a"], case["as_b"]
     fn = case["fn"]
     keep_na = case.get("na_is_element", False)      # jaccard_index drops missing values inside Series only
-    sa = {e for e in A if e != "<NA>" or (keep_na and ha not in ("series", "series_nan"))}
-    sb = {e for e in B if e != "<NA>" or (keep_na and hb not in ("series", "series_nan"))}
+    sa = {e for e in A if e != "<NA>" or (keep_na and ha not in ("series", "series_nan", "series_categorical"))}
+    sb = {e for e in B if e != "<NA>" or (keep_na and hb not in ("series", "series_nan", "series_categorical"))}
     inter = sa & sb
     nt = bool(inter) and inter != sa and inter != sb
     has_na = "<NA>" in A or "<NA>" in B
@@ -208,6 +216,10 @@ def overlap_case(draw, tier="quick"):
             A = A[:1] + ["<NA>"] + A[1:]
             if draw(st.booleans()):
                 B = B + ["<NA>"]
+    if draw(st.integers(0, 5)) == 0:
+        ha = "series_categorical"
+        if draw(st.booleans()):
+            hb = "series_categorical"
     case = {"fn": fn, "A": A, "B": B, "as_a": ha, "as_b": hb}
     if fn == "jaccard_index" and "<NA>" not in A + B and draw(st.integers(0, 2)) == 0:
         # None inside plain collections is an element like any other for jaccard_index (only Series get their NA dropped)
